@@ -122,6 +122,25 @@ def cliWraps (dflt : Int) (opts : List (Option Int)) : Bool := decide (cliTimeou
 def cliDeadline (dflt : Int) (opts : List (Option Int)) (parent : Deadline) (now : Int) : Deadline :=
   if cliWraps dflt opts then withTimeout parent now (cliTimeout dflt opts) else parent
 
+/-! ### zrpc wiring: which timeout reaches the interceptors (zrpc/server.go, zrpc/client.go, zrpc/internal/client.go) -/
+
+/-- `setupUnaryInterceptors`: the timeout interceptor is installed only `if c.Timeout > 0`, with
+`time.Duration(c.Timeout)*time.Millisecond` and `c.MethodTimeouts` — with `Timeout ≤ 0` ("no timeout") the method
+table is not consulted at all. -/
+def srvWiredDeadline (confMs : Int) (mts : List (Nat × Int)) (method : Nat) (parent : Deadline) (now : Int) : Deadline :=
+  if confMs > 0 then srvDeadline (confMs * 1000000) mts method parent now else parent
+
+/-- `NewClient`: `WithTimeout(c.Timeout ms)` is put in front of the user's `ClientOption`s only `if c.Timeout > 0`;
+`buildDialOptions` applies the options in order on a zero `ClientOptions` (the last `WithTimeout` wins). -/
+def cliConfTimeout (confMs : Int) (userTimeouts : List Int) : Int :=
+  ((if confMs > 0 then [confMs * 1000000] else []) ++ userTimeouts).foldl (fun _ t => t) 0
+
+/-- `buildUnaryInterceptors`: `TimeoutInterceptor(cliOpts.Timeout)` only under `middlewares.Timeout`; per call the
+first `WithCallTimeout` option overrides it (`cliTimeout`). -/
+def cliWiredDeadline (mwTimeout : Bool) (confMs : Int) (userTimeouts : List Int) (callOpts : List (Option Int))
+    (parent : Deadline) (now : Int) : Deadline :=
+  if mwTimeout then cliDeadline (cliConfTimeout confMs userTimeouts) callOpts parent now else parent
+
 /-- `fx.DoWithTimeout(fn, timeout, opts…)`: parent = context of the *last* option, else Background. -/
 def fxParent (opts : List Deadline) : Deadline :=
   match opts.getLast? with
@@ -252,6 +271,22 @@ without the buffered status. -/
 def flushNowPinned (w : Rec) (t : TW) : Rec × TW :=
   let w1 : Rec := { w with hdr := hmerge w.hdr t.h }
   ((w1.write t.wbuf).flush, { t with wbuf := [] })
+
+/-- result of `tw.Hijack()` as the handler sees it -/
+inductive HijRes where
+  | ok            -- the underlying writer handed the connection over
+  | refused       -- ErrHandlerTimeout
+  | unsupported   -- "server doesn't support hijacking"
+  deriving Repr, DecidableEq
+
+/-- `timeoutWriter.Hijack` (fixed code, fixes/C04-hijack-after-timeout.patch): under `mu`; once `timedOut` the connection
+is not the handler's any more; else pass through to the underlying writer if it is a Hijacker. -/
+def hijack (t : TW) (supported : Bool) : HijRes :=
+  if t.timedOut then .refused else if supported then .ok else .unsupported
+
+/-- `Hijack` as pinned: no lock, no `timedOut` test -/
+def hijackPinned (_t : TW) (supported : Bool) : HijRes :=
+  if supported then .ok else .unsupported
 
 /-- the response of the timeout branch on a fresh writer -/
 def timeoutResp (reason : List Nat) (k : Kind) : Rec := (Rec.init.writeHeader (statusOf k)).write reason
